@@ -100,6 +100,15 @@ class World:
         if upstream == 'map-slice':
             base = base[::-1][::-1]
         self.base = base.cache(keep_mem_free=keep)
+        # a neighbour: a second cache of the same shape (same keys, same
+        # indices) over another pipeline; each cache serves its own pipeline
+        self.nb_calls = collections.Counter()
+
+        def up_nb(x):
+            self.nb_calls[x] += 1
+            return ('nb', x, self.nb_calls[x])
+        self.neighbour = ld.new(dict(zip(self.keys, range(n)))).map(up_nb).cache(
+            keep_mem_free=keep)
         self.handles = [self.base]
         self.frozen = None        # ids computed before the crossing
         self.first = {}
@@ -207,6 +216,15 @@ def run_history(ld, n, hist, cross_at, res, upstream='map'):
             break
         for _, v in got:
             v[3].append('consumer-was-here')
+        if n and w.frozen is None:
+            j = s % n
+            nv = (w.neighbour[j], w.neighbour[w.keys[j]]) if s % 2 else \
+                (w.neighbour[j - n], w.neighbour[j])
+            res.count('neighbour_cache_accesses', 2)
+            if nv != (('nb', j, 1), ('nb', j, 1)):
+                res.violation('caches-share-a-store', {**case, 'step': s},
+                              {'neighbour_returned': nv, 'want': ('nb', j, 1)}, sig=sig)
+                break
         # compute-once for everything that was allowed to be cached
         cnt = collections.Counter(i for i, _ in w.produced)
         for i, c in cnt.items():
